@@ -165,7 +165,7 @@ func runReader() {
 			jobs = append(jobs, job{si, tx, 3, []int{2, 0}})
 		}
 	}
-	name := "(a) AztecReader.Decode: 36 shapes x {tiny, fill half, fill full} x rotation {0,90,180,270} x scale {2,3,4,5} x quiet zone {2 (positive obligation), 0 (wrong text only)}; on the 8 shapes of <= 100 codewords (compact 1-4, full 1-4) every fitting main-class text (without latch histories) in the same product; on the others every 12th such text (offset by layer count) at scale 3"
+	name := "(a) AztecReader.Decode: 36 shapes x {tiny/A, fill half v0, fill full v0} x rotation {0,90,180,270} x scale {2,3,4,5} x quiet zone {2 (positive obligation), 0 (wrong text only)}; on the 8 shapes of <= 100 codewords (compact 1-4, full 1-4) every fitting main-class text (without latch histories) in the same product; on the others every 12th such text (offset by layer count) at scale 3"
 	if !chk.Quick() {
 		name = "(a) AztecReader.Decode: 36 shapes x every fitting main-class text of the family (without the 125 latch histories) + fills half/full in 4 variants x rotation {0,90,180,270} x scale {2,3,4,5} x quiet zone {2 (positive obligation), 0 (wrong text only)}"
 	}
@@ -323,6 +323,9 @@ func runDamage() {
 							rots = []int{0, 1, 2, 3}
 						}
 						for _, rot := range rots {
+							if !checkRead(l, sh, sym, tx, rot, 3, 2, true) {
+								continue // the undamaged image is not read: reported as a reader failure
+							}
 							c.Via, c.Rot, c.Scale, c.Quiet = "reader", rot, 3, 2
 							checkDamaged(l, sh, sym, mods, tx, c, "C11/damage/t-errors/"+f.name, what+fmt.Sprintf(", read at scale 3 rotated %d deg", rot*90))
 						}
@@ -377,6 +380,9 @@ func runDamage() {
 				}
 			}
 			sym := encodeRef(sh, tx)
+			if !checkDecode(l, sh, sym, tx) {
+				return // the undamaged symbol fails: reported there
+			}
 			mods := sym.WordModules()
 			for p := j.lo; p < j.hi; p++ {
 				for repl := 0; repl < 2; repl++ {
